@@ -527,30 +527,45 @@ theorem fileUnpack_explored : ∀ cfg ∈ unpackConfigs,
     decide +kernel
   exact fun cfg hc => List.all_eq_true.1 h cfg hc
 
-/-- unpackZipArchive, full statement: "the directory is renamed into place only if every member was written
-    completely". FALSE on the code as it is: a member larger than MaxUnpackSize is cut by io.CopyN, which then
-    returns nil, and the cut file is published. -/
-theorem unpackZip_full_statement_refuted :
-    ¬ (∀ (members : List ZipMember), unpackZipPublishes true members = true →
-        ∀ m ∈ members, (zipCopy m).1 = m.size ∧ m.readErr = false) := by
-  intro h
-  have := h [⟨PB.Gen.FsDownload.maxUnpackSize + 1, false⟩] (by decide) _ (List.mem_singleton.2 rfl)
-  revert this
-  decide
-
-/-- unpackZipArchive, what holds: if no member exceeds MaxUnpackSize then the directory is renamed into place only
-    if the archive opened and every member was delivered by its reader without error and written completely
-    (a short or corrupt member — flate error, checksum error, unexpected EOF — aborts the unpacking). -/
-theorem unpackZip_publishes_only_complete_partial (opens : Bool) (members : List ZipMember)
-    (hmax : ∀ m ∈ members, m.size < PB.Gen.FsDownload.maxUnpackSize)
+/-- unpackZipArchive (decision level, every archive, every member size): the directory is renamed into place only
+    if the archive opened and EVERY member was delivered by its reader without error and written completely — a
+    corrupt or short member (flate error, checksum error, unexpected EOF) and a member larger than MaxUnpackSize
+    abort the unpacking. Proved over the regenerated `zipLimitChecked`: it fails for a copyFromZipArchive that
+    returns nil right after io.CopyN. -/
+theorem unpackZip_publishes_only_complete (opens : Bool) (members : List ZipMember)
     (h : unpackZipPublishes opens members = true) :
     opens = true ∧ ∀ m ∈ members, (zipCopy m).1 = m.size ∧ m.readErr = false := by
   simp only [unpackZipPublishes, Bool.and_eq_true, List.all_eq_true, Bool.not_eq_true'] at h
   refine ⟨h.1, fun m hm => ?_⟩
   have h2 := h.2 m hm
-  have h3 := hmax m hm
-  simp only [zipCopy, h3, if_true] at h2 ⊢
-  simp [h2]
+  have hc : PB.Gen.FsDownload.zipLimitChecked = true := by decide
+  simp only [zipCopy, zipCopyWith, hc, if_true] at h2 ⊢
+  by_cases h3 : m.size < PB.Gen.FsDownload.maxUnpackSize
+  · simp only [h3, if_true] at h2 ⊢
+    exact ⟨trivial, h2⟩
+  · simp only [h3, if_false] at h2 ⊢
+    by_cases h4 : m.size = PB.Gen.FsDownload.maxUnpackSize
+    · simp only [h4, if_true] at h2 ⊢
+      exact ⟨trivial, h2⟩
+    · simp [h4] at h2
+
+/-- Why the check after io.CopyN is needed (the defect found in round 3, as a theorem): for a copyFromZipArchive
+    that returns nil as soon as MaxUnpackSize bytes were copied, the statement above is FALSE — a member of
+    MaxUnpackSize+1 bytes is cut, accepted, and the directory is published. -/
+theorem unpackZip_limit_check_needed :
+    ¬ (∀ (members : List ZipMember), (members.all fun m => !(zipCopyWith false m).2) = true →
+        ∀ m ∈ members, (zipCopyWith false m).1 = m.size) := by
+  intro h
+  have := h [⟨PB.Gen.FsDownload.maxUnpackSize + 1, false⟩] (by decide) _ (List.mem_singleton.2 rfl)
+  revert this
+  decide
+
+/-- The limit itself is not a cut: a member of exactly MaxUnpackSize bytes is written completely, and its read
+    error (checksum verdict at the end) is still seen. -/
+example : zipCopy ⟨PB.Gen.FsDownload.maxUnpackSize, false⟩ = (PB.Gen.FsDownload.maxUnpackSize, false) := by decide
+example : zipCopy ⟨PB.Gen.FsDownload.maxUnpackSize, true⟩ = (PB.Gen.FsDownload.maxUnpackSize, true) := by decide
+example : (zipCopy ⟨PB.Gen.FsDownload.maxUnpackSize + 1, false⟩).2 = true := by decide
+example : unpackZipPublishes true [⟨100, false⟩, ⟨0, false⟩] = true := by decide
 
 /-- renameio.Symlink over an absent destination, an existing symlink and an existing regular file. -/
 theorem symlink_explored : ∀ old ∈ [none, some exOldLink, some exOldFile],
